@@ -410,6 +410,8 @@ def run(ctx):
 
 
 def replay(ctx, rp):
+    import shutil
+    shutil.rmtree(ctx.scratch, ignore_errors=True)       # replay needs no scratch space
     import_cluster()
     case = rp.get('case') or {}
     if not case.get('col'):
